@@ -1237,7 +1237,10 @@ async fn build_forwarded_response(
                     _ => {}
                 }
             }
-            Answer::NoRecords(soa) => match DnssecSummary::from_records(authorities.iter()) {
+            // the SOA is part of the authority section of the response (kept apart only to build it)
+            Answer::NoRecords(soa) => match DnssecSummary::from_records(
+                soa.iter().chain(authorities.iter()),
+            ) {
                 DnssecSummary::Secure
                     if (request_meta.authentic_data || lookup_options.dnssec_ok) =>
                 {
